@@ -1355,6 +1355,7 @@ def replay(ctx, obj):
 
 # ============================================================================ run
 FIXED = [
+    "from __future__ import annotations, division as d\nx: annotations = d\ndef f(a: x) -> annotations:\n    return annotations, d\n",
     "x = 1\ndef f(a, b=2, *c, **d):\n    y = a\n    return y\n",
     "import os.path, sys as s\nfrom m import a as b, c\nclass C(object):\n    z = 1\n    def m(self):\n        self.w = z\n        return [q for q in self.w]\n",
     "x = 1\ndef f():\n    global x\n    x = 2\n    def g():\n        return x\n    return g\n",
@@ -1397,7 +1398,11 @@ def check_star_modules(ctx, n):
         body = c15_gen.gen_module(ctx.rng, (), size=ctx.rng.choice([6, 10]))
         if body is None:
             continue
-        src = "from %s import *\n" % LIB_NAME + body
+        if body.startswith("from __future__ import"):
+            first, rest = body.split("\n", 1)          # a __future__ import has to stay the first statement
+            src = first + "\nfrom %s import *\n" % LIB_NAME + rest
+        else:
+            src = "from %s import *\n" % LIB_NAME + body
         done += 1
         try:
             o = observe(src, all_orders=True)
@@ -1423,7 +1428,7 @@ def check_star_modules(ctx, n):
             rep = {"kind": "module", "src": src, "focus": c, "disagreement": first, "all_orders": True}
             if c not in known and len(ctx.violations) < 3 and first["what"] not in ("order-dependence", "offset-scope", "offset-raised"):
                 small = shrink(src, c, first["what"])
-                if small != src and small.startswith("from %s import *" % LIB_NAME):
+                if small != src and ("from %s import *" % LIB_NAME) in small:
                     rep["src"] = small
             ctx.violation(rep, "C15: rope disagrees with CPython (%s): %s" % (c, json.dumps(first)[:300]))
         if ctx.too_many(12):
@@ -1487,6 +1492,8 @@ def check_modules(ctx, sources, stream):
         ctx.case(("mod", o.src), nontrivial=(nscopes >= 3 and shadow))
         ctx.traces += 1
         ctx.count(stream + ":modules")
+        if "from __future__ import" in o.src:
+            ctx.count(stream + ":modules-with-a-__future__-import")
         ctx.count(stream + ":scopes", nscopes)
         ctx.count(stream + ":lookups-compared", len(o.idents) * len(o.rope_scopes))
         account_offsets_and_orders(ctx, o, stream)
